@@ -32,6 +32,16 @@ RULE = ("kinds: roundtrip (both shipped sample types, declared size 1..14, 0..13
         "ops (add_theta/get_theta sequences incl. negative and too large indices, declared <= 0).  "
         "Non-trivial: at least one stored sample / one operation; distinct by case description.")
 THEOREMS = {
+    "C10_model_is_source_init": "the Gallina translation of the whole method ThetaHolder.__init__, regenerated from /repo's current source on this run (Generated/SrcThetas.v), turns ANY fresh instance into (same class, declared size n, no samples) = the model's empty_holder n",
+    "C10_model_is_source_n_thetas": "the translation of the whole property ThetaHolder.n_thetas returns the model's declared size, for every object",
+    "C10_model_is_source_get_theta": "the translation of the whole method ThetaHolder.get_theta (bound check, raise, self.thetas[step_index] with Python's list indexing) equals the model's get_theta on the object's attribute values, for every object and every integer index",
+    "C10_model_is_source_add_theta": "the translation of the whole method ThetaHolder.add_theta (which mutates self: the translation denotes the new self) equals the model's add_theta on the attribute values, same class, for every object and sample",
+    "C10_model_is_source_is_complete": "the translation of the whole property ThetaHolder.is_complete equals the model's is_complete, for every object",
+    "C10_model_is_source_combine": "the translation of the whole method ThetaHolder.combine equals, for ALL pairs of objects: Err if their classes differ (the guard the model leaves out), else a new instance of ThetaHolder itself holding the model's combine_holders of the two attribute values",
+    "C10_model_is_source_concat": "the translation of the whole classmethod ThetaHolder.concat (two length tests, instances[0], the loop over instances[1:] with class guard and first = first.combine(instance)) equals the model's concat_holders for ALL lists of instances of ThetaHolder itself (representation map as_obj h = (class 0, h); the tree has no subclass)",
+    "C10_model_is_source_load_h5": "the translation of the whole staticmethod ThetaHolder.load_h5 (n_thetas attribute, ThetaHolder(n), sorted(list(private_grp.keys()), key=int), the loop in that order with private_grp[name], from_dicts and result.add_theta, return) equals the model's load on every file whose private_params members have distinct names (every HDF5 file); h5py / dict plumbing enters as the configured primitives",
+    "C10_model_is_source_save_h5": "the translation of the whole method ThetaHolder.save_h5 (empty refusal, shared parameters and class of self.thetas[0], n_thetas attribute, the loop over enumerate(self.thetas) creating group str(i) from private_parameters_dict()) denotes the written file; read back (all parts present, members in h5py's name order) it equals the model's save, for every object",
+    "C10_model_is_source_save_load": "the translated save_h5 followed by the translated load_h5 equals the model's save_load for every object (no side condition), so the C10_load_save* theorems are theorems about the translated source",
     "C10_load_save": "load (save h) = Ok h for every holder with 1 <= #samples <= declared size whose samples share their shared parameters: same declared size, number, order, values (any file iteration order of distinct decimal keys would do; the model uses h5py's lexicographic one)",
     "C10_load_save_complete": "the same for complete holders (n >= 1 samples, declared n)",
     "C10_load_save_general": "for ANY non-empty holder within its declared size, load (save h) = Ok (h with every sample's shared parameters replaced by those of sample 0)",
@@ -57,11 +67,26 @@ THEOREMS = {
 ASSUMPTIONS = [
     "an HDF5 dataset / attribute read through h5py returns the array / scalar written (dtype, shape, bits), and from_dicts rebuilds a sample from its two dicts: abstracted in the model (sample = opaque pair private/shared), checked bit-for-bit on every roundtrip case",
     "h5py iterates group names in lexicographic order (checked by the `keys` cases against the model's file order); the round-trip theorem does not depend on it",
-    "the type(self) != type(other) guards of combine/concat are not modelled (one holder class in the tree)",
+    "the type(self) != type(other) guards of combine/concat are not part of the model's combine_holders/concat_holders (one holder class in the tree); they ARE part of the source translation: C10_model_is_source_combine states the guard, C10_model_is_source_concat is stated for lists of instances of ThetaHolder itself",
+    "source-translation link: trusted are the translator harness/py2gal.py (its rendering of if / raise / return / for / arithmetic / comparisons / list + / attribute read, store and .append on an object held as a value (class id, attributes) - aliasing is not modelled; add_theta's in-place append is the only mutation and the translation returns the new self) and the primitives configured in harness/src_functions.py C10_*: len(l) = Z.of_nat (length l); l[i] = PyRt.list_get (negative index from the end, IndexError otherwise); l[1:] = tl l; type(a) != type(b) = the class ids differ; attributes self.thetas / self._n_thetas = the two fields of the model's holder (getter / one-field-replaced setter); ThetaHolder(n) = the translated __init__ applied to a fresh instance of class 0; h.n_thetas = the translated property n_thetas; a.combine(b) = the translated method combine (method and property dispatch: no subclass overrides them)",
+    "source-translation link of load_h5 (harness/src_functions.py C10_LOAD; the file at `path` is a value of the model's type `file`: n_thetas attribute, content of the shared_params group, members (name, content) of the private_params group in iteration order, where the content of a group is the dict that reading it gives): `with h5py.File(path, 'r') as f` binds f to that value and closing does not change what was read; f.attrs['n_thetas'] = f_n; f.attrs['theta_class'/'theta_module'] and getattr(importlib.import_module(m), c) = the sample class, not modelled (unit); ThetaHolder(n_thetas=n) = translated __init__ on a fresh instance of class 0; f['private_params'] = f_groups; sorted(list(g.keys()), key=int) = stable insertion sort of the member names by int(name); g[name] = first member of that name else KeyError; C.from_dicts(private_params=p, shared_params=s) = the pair (p, s); result.add_theta(t) = the translated add_theta; and two STATEMENT-RUN primitives pinned to the exact source text: `shared_params = {}; shared_grp = f['shared_params']; shared_params.update(shared_grp.attrs.items()); for key in shared_grp.keys(): shared_params[key] = shared_grp[key][:]` = f_shared f, and the same four statements on i_grp / private_params = the content of that group",
+    "source-translation link of save_h5 (C10_SAVE; the method returns None, the translation returns what has been written, a record of optional parts h5w): `with h5py.File(fn, 'w') as f` = nothing written yet; t.shared_parameters_dict() = second component of the sample; t.__class__.__name__ / __module__ = not modelled; f.attrs.create('n_thetas', v) sets the attribute; f.attrs.create('theta_class'/'theta_module', c) = no change of the modelled parts; private_grp = f.create_group('private_params') creates the empty member list (the handle carries no data); two statement-run primitives pinned to the exact text: `shared_grp = f.create_group('shared_params'); for key, val in shared_params.items(): <dataset if ArrayType else attribute>` = the shared part is that dict, and `i_grp = private_grp.create_group(str(i)); private_params = theta.private_parameters_dict(); for key, val in private_params.items(): <...>` = member (decimal string of i, first component of theta) appended (str(i) of a non-negative int is its decimal string; h5py's refusal of a duplicate member name is not modelled); the theorem's reading-back map h5_close orders the members by name (h5py's iteration order, see above)",
     "n_thetas is an unbounded integer in the model (int64 attribute in the file)",
     "shared parameters are shared: the round trip of a holder whose samples carry different single-effect tables is characterised (C10_load_save_general) and checked by correspondence, not counted as a violation unless VERIF_C10_STRICT_SHARED=1",
 ]
-EXPLANATION = ("Model: Model/Thetas.v.  Modelled, not verified: h5py/HDF5 storage of arrays and scalars, numpy, dataclass "
+EXPLANATION = ("Tie to the code, two ways: (1) the whole methods ThetaHolder.__init__, n_thetas, get_theta, add_theta, is_complete, combine and "
+               "concat are re-translated from /repo's current source on every run (harness/py2gal.py -> Generated/SrcThetas.v; fail-closed: a "
+               "construct outside the fragment, a changed parameter list or an undeclared variable stops the build) and the "
+               "C10_model_is_source_* theorems prove the translations equal to the hand-written model for all inputs (objects are (class id, "
+               "holder); concat via the representation map as_obj) - trusted there: the translator and the primitives len, l[i], l[1:], "
+               "type(a) != type(b), the two attribute getters/setters, and the dispatch of ThetaHolder(n) / .n_thetas / .combine to the "
+               "translated __init__ / property / method (see ASSUMPTIONS).  save_h5 and load_h5 are translated whole as well "
+               "(C10_model_is_source_load_h5 / _save_h5 / _save_load): there the h5py and dict plumbing is a longer list of configured "
+               "primitives, including four statement-run primitives pinned to the exact source text of the 'read a group into a dict' / "
+               "'write a dict into a group' loops (ASSUMPTIONS lists every one); the translation contributes the skeleton - empty refusal, "
+               "n_thetas attribute, shared parameters from sample 0, enumerate + str(i) group names, sorted(..., key=int), the load loop "
+               "order, add_theta.  (2) The differential correspondence below exercises all of it, primitives included, on the real h5py.  "
+               "Model: Model/Thetas.v.  Modelled, not verified: h5py/HDF5 storage of arrays and scalars, numpy, dataclass "
                "construction in from_dicts, predict_viability (only used to recognise which sample produced which prediction "
                "column of evaluate_model).  ModelEvaluation.save_h5/load_h5 are used as-is to read the CLI's output.")
 
